@@ -350,6 +350,8 @@ func (a *Emitter) Label(name string) uint32 {
 	a.labels[name] = a.address
 
 	if a.generateText {
+		// a label that opens the program must not precede the base directive:
+		a.emitBase()
 		a.lines = append(a.lines, asmLine{
 			asmLineType: lineLabel,
 			address:     a.address,
